@@ -11,7 +11,7 @@ ID = "C01"
 TIERS = {"quick": dict(examples=1500), "thorough": dict(examples=40000)}
 RULE = ("Code pairs: a base code (numeric nameplate + '-' + 0-4 'words' over an alphabet rich in characters with "
         "distinct NFC/NFD spellings, ligatures, case pairs, hyphens) and a peer code that is identical / the other "
-        "normalisation form / one character substituted, inserted, deleted / case-flipped / another nameplate "
+        "normalisation form / its NFKC compatibility folding (which NFC must not identify) / one character substituted, inserted, deleted / case-flipped / another nameplate "
         "(7 vs 07, 7 vs 8) / same code under another appid; entry by set_code, allocate_code (+ optionally "
         "perturbed copy) or input_code with the words chosen late (peer PAKE before local code). Where nameplate or "
         "appid differ a message-level man-in-the-middle rewrites one side's bind/claim so the two still meet. "
@@ -28,6 +28,9 @@ ASSUMPTIONS = ["SPAKE2/NaCl hardness is not tested, only the binding structure",
 ALPH = ["a", "b", "é", "é", "Å", "Å", "ß", "ﬁ", "한", "한", "x", "Q", "q",
         "-", "ö", "ö", "1", "purple", "sausages", "Ω", "Ω"]
 
+ALPH += ["\u00b2", "\uff11", "\uff46", "\u338f", "fi"]
+COMPAT = ["\ufb01", "\u00b2", "\uff11", "\uff46", "\u338f", "\u01c6", "\ufb00"]   # changed by NFKC, untouched by NFC
+
 
 @st.composite
 def cases(draw, tier="quick"):
@@ -38,7 +41,11 @@ def cases(draw, tier="quick"):
     words = "".join(ch for ch in words if not ch.isspace())
     np_ = str(draw(st.integers(1, 99)))
     kind = draw(st.sampled_from(["same", "same", "nfd", "nfc", "subst", "case", "ins", "del", "np0", "np1", "appid",
-                                 "allocsame", "allocsfx"]))
+                                 "allocsame", "allocsfx", "compat", "compat"]))
+    if kind == "compat":
+        # codes that differ only by a compatibility mapping (NFKC), which NFC must NOT identify
+        j = draw(st.integers(0, len(words)))
+        words = words[:j] + draw(st.sampled_from(COMPAT)) + words[j:]
     wb, npb = words, np_
     if kind == "nfd":
         wb = unicodedata.normalize("NFD", words)
@@ -55,6 +62,8 @@ def cases(draw, tier="quick"):
     elif kind == "del" and words:
         j = draw(st.integers(0, len(words) - 1))
         wb = words[:j] + words[j + 1:]
+    elif kind == "compat":
+        wb = unicodedata.normalize("NFKC", words)
     elif kind == "np0":
         npb = "0" + np_
     elif kind == "np1":
@@ -74,6 +83,7 @@ def cases(draw, tier="quick"):
     payload = st.one_of(st.just(b""), st.binary(max_size=16))
     P["sends"] = [draw(st.lists(payload, max_size=3)), draw(st.lists(payload, max_size=3))]
     P["reorder"] = draw(st.booleans())
+    P["compat_purposes"] = draw(st.sampled_from([["of\ufb01ce", "office"], ["x\u00b2", "x2"], ["\uff11", "1"]]))
     P["purposes"] = draw(st.lists(st.tuples(st.text(min_size=1, max_size=12).filter(lambda t: "\ud800" > t or True),
                                             st.integers(1, 128)).map(list), min_size=1, max_size=3))
     n = draw(st.integers(0, 200))
@@ -136,7 +146,7 @@ def run_case(P):
     def at_stable(rec):
         for i in range(2):
             out = []
-            for (p, n) in P["purposes"] + [["p", 16], ["q", 16]]:
+            for (p, n) in P["purposes"] + [[P["compat_purposes"][0], 16], [P["compat_purposes"][1], 16]] + [["p", 16], ["q", 16]]:
                 try:
                     out.append(rec.ws[i].derive_key(p, n))
                 except NoKeyError:
@@ -181,7 +191,7 @@ def run_case(P):
                 res.violate("derive", "derive_key failed after key agreement: %r %r" % (d0, d1),
                             input_class="derive-key-failed")
             else:
-                plist = P["purposes"] + [["p", 16], ["q", 16]]
+                plist = P["purposes"] + [[P["compat_purposes"][0], 16], [P["compat_purposes"][1], 16]] + [["p", 16], ["q", 16]]
                 for j, (p, n) in enumerate(plist):
                     if d0[j] != d1[j] or len(d0[j]) != n:
                         res.violate("derive", "derive_key(%r,%d) differs between sides or has wrong length" % (p, n),
